@@ -362,7 +362,27 @@ def A8(ctx: Ctx) -> RuleResult:
     # get_type_of prefers fields
     fi = mt.methods.get('get_type_of')
     outs = ctx.ev.run(fi, {'self': Sym('self', 'MessageType'), 'name': Sym('name')})
-    pref = any(o.kind == 'return' and 'fields' in repr(o.value) and any(p and 'fields' in repr(t) for t, p in norm_guards(o.guards)) for o in outs)
+    from .util import none_test
+    pref = False
+    const_unguarded = False
+    for o in outs:
+        if o.kind != 'return':
+            continue
+        for g2, leaf in alternatives(o.value):
+            facts = []   # (term, known to be not None?)
+            for t, p in norm_guards(tuple(o.guards) + tuple(g2)):
+                nt = none_test(t)
+                if nt is not None:
+                    facts.append((nt[0], (not nt[1]) if p else nt[1]))
+                elif p and 'fields' in repr(t):
+                    facts.append((t, True))
+            fields_present = any('fields' in repr(t) and notnone for t, notnone in facts)
+            fields_absent = any('fields' in repr(t) and not notnone for t, notnone in facts)
+            if 'fields' in repr(leaf) and 'constants' not in repr(leaf) and fields_present:
+                pref = True
+            if 'constants' in repr(leaf) and not fields_absent:
+                const_unguarded = True
+    pref = pref and not const_unguarded
     (r.ok('get_type_of: a field of that name wins over a constant') if pref else r.fail('MessageType.get_type_of:order', 'fields are not looked up first', fi.where))
     return r
 
@@ -415,10 +435,23 @@ def A9(ctx: Ctx) -> RuleResult:
     self_t = Sym('self', 'MessageType')
     outs = ctx.ev.run(fi, {'self': self_t})
     loops = [e for o in outs for e in o.effects if isinstance(e, Loop)]
+    rec_name = 'leaf_fields'
+    gen_mode = False
+    if not loops and len(outs) == 1 and outs[0].kind == 'return':
+        v0 = outs[0].value
+        if isinstance(v0, Call) and isinstance(v0.func, Ext) and v0.func.name == 'dict' and len(v0.args) == 1 and isinstance(v0.args[0], Call) \
+                and call_recv(v0.args[0]) == self_t and mt.resolve(call_name(v0.args[0]) or '') is not None:
+            # dict(self.<generator>()): the listing is produced as (path, token) pairs by a recursive generator
+            gfi = mt.resolve(call_name(v0.args[0]))
+            fi = gfi
+            rec_name = gfi.name
+            gen_mode = True
+            outs = ctx.ev.run(gfi, {'self': self_t})
+            loops = [e for o in outs for e in o.effects if isinstance(e, Loop)]
     if not loops:
         raise AnalysisError('A9', 'leaf_fields: no loop found')
     lp = loops[0]
-    recursive = any(isinstance(x, Call) and call_name(x) == 'leaf_fields' for p in lp.paths for e in p[3] for x in walk(e))
+    recursive = any(isinstance(x, Call) and call_name(x) == rec_name for p in lp.paths for e in p[3] for x in walk(e))
     if recursive and lp.iter == Call(Attr(Attr(self_t, 'fields'), 'items')):
         ok_nested = ok_leaf = False
         for pg, flow, binds, effs in lp.paths:
@@ -433,6 +466,8 @@ def A9(ctx: Ctx) -> RuleResult:
                             for st in ieffs:
                                 if isinstance(st, Store) and isinstance(st.target, Sub):
                                     entries.append((st.target.index, st.value, il.iter, inner_names))
+                                if gen_mode and isinstance(st, Op) and st.op == 'yield' and st.args and isinstance(st.args[0], TupleT) and len(st.args[0].items) == 2:
+                                    entries.append((st.args[0].items[0], st.args[0].items[1], il.iter, inner_names))
                     # result.update((key, value) for ... in nested.items()) / update({key: value for ...})
                     if isinstance(e, Call) and call_name(e) == 'update' and len(e.args) == 1 and isinstance(e.args[0], Comp) and len(e.args[0].gens) == 1:
                         comp = e.args[0]
@@ -452,7 +487,8 @@ def A9(ctx: Ctx) -> RuleResult:
                         return parts(k.args[0])
                     return [k]
                 for k, v, it, inner_names in entries:
-                    items = isinstance(it, Call) and call_name(it) == 'items' and isinstance(call_recv(it), Call) and call_name(call_recv(it)) == 'leaf_fields'
+                    items = (isinstance(it, Call) and call_name(it) == 'items' and isinstance(call_recv(it), Call) and call_name(call_recv(it)) == 'leaf_fields') or \
+                        (gen_mode and isinstance(it, Call) and call_name(it) == rec_name)   # the generator already yields pairs
                     if not items:
                         r.fail('MessageType.leaf_fields:nested-iter', f'nested listing is iterated as {str(it)[:60]} (a mapping must be iterated with .items())', fi.where)
                     want_parts = [Sym(f'each:{outer_names[0]}'), Const('.'), Sym(f'each:{inner_names[0]}')] if len(outer_names) == 2 and len(inner_names) == 2 else None
@@ -464,6 +500,8 @@ def A9(ctx: Ctx) -> RuleResult:
                 outer_names = [x.strip() for x in lp.target.strip('()').split(',')]
                 for st in effs:
                     if len(outer_names) == 2 and isinstance(st, Store) and isinstance(st.target, Sub) and st.target.index == Sym(f'each:{outer_names[0]}') and st.value == Sym(f'each:{outer_names[1]}'):
+                        ok_leaf = True
+                    if gen_mode and len(outer_names) == 2 and isinstance(st, Op) and st.op == 'yield' and st.args == (TupleT((Sym(f'each:{outer_names[0]}'), Sym(f'each:{outer_names[1]}'))),):
                         ok_leaf = True
         (r.ok('recursive listing: fields[name + "." + subname] = subtoken for every nested entry; fields[name] = token for leaves') if ok_nested and ok_leaf else r.fail('MessageType.leaf_fields:shape', 'recursive idiom not recognised on both the nested and the leaf path', fi.where))
         return r
